@@ -18,7 +18,11 @@ PROPS["C10"]["level_text"] += " " + (
     "(dec_max_distance_closed). C10_fast_roundtrip_q29 / C10_trivial_roundtrip_q29 reach the BITS for quality 2 / 3: the "
     "RFC reader started in the decoder's state consumes exactly what BrotliStoreMetaBlockFast / Trivial emit and outputs "
     "dictionary tail ++ prev ++ block. C10_faithful_q29: the same command array is `faithful` for that decoder and leaves "
-    "its distance ring equal to the dist_cache the call returns (cbr_final_state). A concrete 8-byte dictionary + 24-byte block (with a static-dictionary reference "
+    "its distance ring equal to the dist_cache the call returns (cbr_final_state). C10_full_roundtrip_q49 reaches the BITS "
+    "for quality 4-9: CreateBackwardReferences, then BrotliStoreMetaBlock (storeMetaBlockFull) with any well-formed "
+    "MetaBlockSplit covering the emitted symbols (MBOK/Covers; greedy builder: C01Greedy), then the GENERAL RFC reader in the "
+    "state of the decoder holding the dictionary (prev_byte/prev_byte2 = the last bytes of ITS history) = dictionary tail "
+    "++ prev ++ block; cmdOK, lockstep, faithful and the payload are discharged, copy_len() >= 2 stays a hypothesis. A concrete 8-byte dictionary + 24-byte block (with a static-dictionary reference "
     "right behind the custom dictionary) meets every hypothesis."
 )
 PROPS["C10"]["level_note"] += " " + (
@@ -26,12 +30,11 @@ PROPS["C10"]["level_note"] += " " + (
     "tail ++ prev ++ block from one window before the block: C10 proves the dictionary part for its own ring model "
     "(dict_tail_in_ring), ring_view_w proves the whole of it for w-stream's ring model from RingOK; the two ring models "
     "and the hashers' ByteArray are not identified with each other in Lean (correspondence only: `dict ringw`, `stream`); "
-    "(2) the entropy-coding writers of quality 4-9 (BrotliStoreMetaBlock): C01MetaBlockFull's full_metablock_roundtrip / "
-    "wmbi_full_roundtrip take the command hypotheses cmdOK, lockstep (delivered for the DECODER's history), faithful "
-    "(delivered: C10_faithful_q29, via faithful_of_final: a run that ends in history ++ block at the end of the "
-    "meta-block is faithful) and copy_len() >= 2 for copying commands (NOT delivered: a 1-byte static-dictionary match "
-    "is reachable at extreme literal_byte_score), plus the block-split/histogram hypotheses MBOK/Covers; the "
-    "composition line is not written; (3) quality 10/11 (Zopfli model of C01, no lockstep theorem); (4) one CreateBackwardReferences call per "
+    "(2) for the quality 4-9 writer (C10_full_roundtrip_q49) two hypotheses stay: copy_len() >= 2 for copying commands "
+    "(a 1-byte static-dictionary match is reachable at extreme literal_byte_score; with the dictionary off it is a "
+    "theorem, cbr_copylen2) and the well-formedness of the MetaBlockSplit (MBOK/Covers: greedy_split_wellformed for "
+    "the greedy builder; BrotliOptimizeHistograms not covered); the stored fallback of WriteMetaBlockInternal composes "
+    "through wmbi_full_roundtrip in the same way (not written); (3) quality 10/11 (Zopfli model of C01, no lockstep theorem); (4) one CreateBackwardReferences call per "
     "meta-block, NPOSTFIX = NDIRECT = 0; (5) the real decoder's copy path over the dictionary tail is "
     "dict_tail_readable / decoder_shrunk_ring_clobbers_dict, which is about brotli-decompressor, not about the stream. "
     "'quality 0/1 emit no static-dictionary reference' and the decoder hand model stay as before."
